@@ -224,6 +224,11 @@ def loom_attribution(name, props, msg):
     if "deadlock" in msg:
         return WAKE_PROPS & set(props)
     if "Causality violation" in msg or "UnsafeCell" in msg:
+        if name.endswith("_clone_exclusive"):
+            # two threads inside clone() of the same stored payload, or a clone not ordered after
+            # the send: the channel is Sync for a payload that is only Send (C16), and a receiver
+            # does not get a proper clone (the flavour's delivery property)
+            return set(props)
         # the Tracked payload was accessed by two guard holders at once / without happens-before
         return {"C02"} if name.startswith("mutex") else {"C01"}
     return {"C01"}
@@ -374,7 +379,13 @@ def type_property(ctx, pid):
         "summary": "cells=%d pairs=%d verdict_cells=%d rule_applications=%d" % (len(cells), len(pairs), verdict_cells, applied),
         "wall_typematrix_s": round(time.time() - t0, 2),
     }
-    ev = {"level": "other", "coverage": cov, "assumptions": [
+    # semantic side of "Sync although the payload is only Send": the channel's own accesses to a
+    # stored payload are exclusive (loom scenarios *_clone_exclusive)
+    lcov, lviols = loom_part(ctx, pid)
+    cov["loom"] = lcov
+    cov["summary"] += " loom_schedules=%d (%d scenarios)" % (lcov["schedules"], len(lcov["scenarios"]))
+    viols += lviols
+    ev = {"level": "other", "coverage": cov, "assumptions": ASSUME_LOOM + [
         "every hand-written Send/Sync impl of the crate is parametric with marker-trait bounds only, so the verdict for any instantiation depends only on the (Send,Sync) class of each parameter (checked by reading the impls; a specialised impl for a concrete type would escape the matrix)",
         "the witness types are representative of their class: i32 (Send+Sync), Cell<i32> (Send), Rc<i32> (neither), a PhantomData<*mut ()> newtype with unsafe Sync (!Send+Sync); RcBuf is a safe custom RingBuf holding an Rc",
         "rule table lib/typerules.py is the oracle and is trusted; rustc's trait solver is trusted",
